@@ -49,7 +49,7 @@ def eq_string(opt):
 
 class Outcome:
     def __init__(self, value=None, error=None, extra=None):
-        self.value, self.error, self.extra = value, error, extra or {}
+        self.value, self.error, self.extra = value, error, ({} if extra is None else extra)
 
 
 def call(cplx, rec, layout=0):
@@ -63,6 +63,21 @@ def call(cplx, rec, layout=0):
         else:
             a.append(tens(e, layout))
     extra = {}
+    before = [t.clone() if isinstance(t, torch.Tensor) else None for t in a]
+    try:
+        try:
+            return _call(cplx, rec, op, opt, a, extra)
+        finally:
+            # no function of the kernel may write into an operand (only into an out= buffer it was handed)
+            for i, (t, b) in enumerate(zip(a, before)):
+                if b is not None and t is not extra.get("target") and not torch.equal(t, b) \
+                        and not (torch.isnan(t) & torch.isnan(b)).all():
+                    extra["operand_modified"] = i
+    except KeyError:
+        raise
+
+
+def _call(cplx, rec, op, opt, a, extra):
     try:
         if op == "make_complex1":
             v = cplx.make_complex(a[0])
@@ -215,6 +230,8 @@ def judge(rec, out):
         if "target" in out.extra and not torch.equal(out.extra["target"], out.extra["before"]):
             return ("argument-overwritten", "the refused output buffer was modified")
         return None
+    if "operand_modified" in out.extra:
+        return ("operand-modified", "argument %d was written to by the call" % out.extra["operand_modified"])
     if out.error is not None:
         return ("raised", repr(out.error))
     if rec["kind"] == "none":
